@@ -62,3 +62,195 @@ fn native_enum_find_key_pos_contract() {
     }
     assert!(cases > 300, "only {} cases", cases);
 }
+
+// ---- ingest + digest end to end: bounded native enumeration ----------------------------------------
+// V19 proves the merge step (keep_up_to / ingest / push_*) against the abstract view of the op list;
+// what turns the op list into nodes - extract_ops_until, try_split, build_branch with BranchNodeBuilder
+// underneath, prepare_merge_ops - uses closures over iterator adapters and is run here for real.
+#[cfg(test)]
+struct NativeBranchRecorder {
+    nodes: Vec<(Key, Vec<(Key, u32)>, Option<Key>)>,
+}
+#[cfg(test)]
+impl HandleNewBranch for NativeBranchRecorder {
+    fn handle_new_branch(&mut self, separator: Key, node: BranchNode, cutoff: Option<Key>) -> std::io::Result<()> {
+        let b = BaseBranch::new(Arc::new(node));
+        let entries = (0..b.node.n() as usize).map(|i| { let (k, pn) = b.key_value(i); (k, pn.0) }).collect();
+        self.nodes.push((separator, entries, cutoff));
+        Ok(())
+    }
+}
+
+/// key number `raw` under an 8-byte prefix; `tail` != 0 makes the separator 32 bytes long
+#[cfg(test)]
+fn native_long_key(prefix_byte: u8, raw: u16, tail: u8) -> Key {
+    let mut k = [0u8; 32];
+    for x in k.iter_mut().take(8) { *x = prefix_byte; }
+    k[8..10].copy_from_slice(&raw.to_be_bytes());
+    k[31] = tail;
+    k
+}
+
+#[cfg(test)]
+fn native_branch_from(keys: &[Key], pc: usize) -> BaseBranch {
+    use crate::beatree::branch::BranchNodeBuilder;
+    use crate::beatree::ops::bit_ops::{prefix_len, separator_len};
+    let pool = PagePool::new();
+    let plen = if pc == 1 { separator_len(&keys[0]) } else { prefix_len(&keys[0], &keys[pc - 1]) };
+    let mut builder = BranchNodeBuilder::new(BranchNode::new_in(&pool), keys.len(), pc, plen);
+    for (i, k) in keys.iter().enumerate() {
+        builder.push(*k, separator_len(k), 1000 + i as u32);
+    }
+    BaseBranch::new(Arc::new(builder.finish()))
+}
+
+/// Bounded native enumeration (not a proof) of `BranchUpdater::{ingest, digest}` end to end on real
+/// branch nodes: four base nodes (none / 6 separators fully prefix-compressed / 6 with an uncompressed
+/// tail / 100 long separators) x 120 change scripts (0, 2, 40, 120 or 260 insertions between and
+/// after the base separators; no, every second or every base separator deleted; every third one
+/// given a new page number or none; optionally one insertion that does not share the node's prefix)
+/// x with and without a cutoff.  After digest:
+///  * the (separator, page number) entries of the nodes handed to the consumer, in order, followed by
+///    the entries the remaining op list stands for, are exactly the entries of the reference map
+///    (base entries with the changes applied): nothing dropped, duplicated, reordered or re-pointed;
+///  * Finished leaves no ops behind; NeedsMerge(c) has c == the cutoff and only Inserts left (the
+///    base node is about to be replaced);
+///  * every node handed out is non-empty, its entries ascend, and the separator passed with it is its
+///    first entry's key.
+#[cfg(test)]
+#[test]
+fn native_enum_branch_digest_conserves_entries() {
+    use crate::beatree::ops::update::branch_ops::verif_kani::{native_expand, native_ops_of};
+    use std::collections::BTreeMap;
+    let short: Vec<Key> = (0..6).map(|i| native_long_key(0x11, (i as u16 + 1) << 8, 0)).collect();
+    let mut mixed = short.clone();
+    for (i, k) in mixed.iter_mut().enumerate().skip(3) { *k = native_long_key(0xEE, (i as u16 + 1) << 8, 0); }
+    let long: Vec<Key> = (0..100).map(|i| native_long_key(0x11, (i as u16 + 1) << 8, 1)).collect();
+    let bases: Vec<Option<(Vec<Key>, usize)>> = vec![None, Some((short, 6)), Some((mixed, 3)), Some((long, 100))];
+    let mut cases = 0;
+    let mut multi = 0;
+    let mut merges = 0;
+    for b in &bases {
+        let base_keys: Vec<Key> = b.as_ref().map(|x| x.0.clone()).unwrap_or_default();
+        for n_ins in [0usize, 2, 40, 120, 260] {
+            for del in 0..3u8 {
+                for upd in 0..2u8 {
+                    for foreign in 0..2u8 {
+                        for cutoff in [None, Some([0xFFu8; 32])] {
+                            // the reference map and the ascending change script
+                            let mut model: BTreeMap<Key, u32> = base_keys.iter().enumerate().map(|(i, k)| (*k, 1000 + i as u32)).collect();
+                            let mut changes: BTreeMap<Key, Option<u32>> = BTreeMap::new();
+                            for (i, k) in base_keys.iter().enumerate() {
+                                if (del == 1 && i % 2 == 1) || del == 2 { changes.insert(*k, None); }
+                                else if upd == 1 && i % 3 == 0 { changes.insert(*k, Some(5000 + i as u32)); }
+                            }
+                            for j in 0..n_ins {
+                                // between base separators first (raw numbers x.5), then past the end
+                                let raw = (((j % 120) as u16 + 1) << 8) + 0x80 - (j / 120) as u16 * 0x10;
+                                changes.insert(native_long_key(0x11, raw, 1), Some(9000 + j as u32));
+                            }
+                            if foreign == 1 { changes.insert(native_long_key(0x05, 7, 1), Some(77)); }
+                            for (k, c) in &changes {
+                                match c { Some(pn) => { model.insert(*k, *pn); } None => { model.remove(k); } }
+                            }
+                            let want: Vec<(Key, u32)> = model.into_iter().collect();
+
+                            let base = b.as_ref().map(|(keys, pc)| native_branch_from(keys, *pc));
+                            let view_base = b.as_ref().map(|(keys, pc)| native_branch_from(keys, *pc));
+                            let mut u = BranchUpdater::new(PagePool::new(), base, cutoff);
+                            for (k, c) in &changes {
+                                u.ingest(*k, c.map(PageNumber));
+                            }
+                            let mut rec = NativeBranchRecorder { nodes: Vec::new() };
+                            if std::env::var("VERIF_TRACE").is_ok() { eprintln!("case base {} ins {} del {} upd {} foreign {} cutoff {}", base_keys.len(), n_ins, del, upd, foreign, cutoff.is_some()); }
+                            let r = u.digest(&mut rec).expect("the recorder never fails");
+                            let mut got: Vec<(Key, u32)> = rec.nodes.iter().flat_map(|n| n.1.iter().cloned()).collect();
+                            match &view_base {
+                                Some(vb) => got.extend(native_expand(vb, native_ops_of(&u.ops_tracker))),
+                                None => for op in native_ops_of(&u.ops_tracker) {
+                                    match op { BranchOp::Insert(k, pn) => got.push((k.clone(), pn.0)), _ => panic!("a base-relative op without a base node") }
+                                },
+                            }
+                            assert!(got == want, "digest: emitted nodes + remaining ops have {} entries, the reference map {} (base {}, {} insertions, del {}, upd {}, foreign {}, cutoff {}; {} nodes emitted; first difference at {:?})",
+                                got.len(), want.len(), base_keys.len(), n_ins, del, upd, foreign, cutoff.is_some(), rec.nodes.len(),
+                                got.iter().zip(want.iter()).position(|(a, b)| a != b));
+                            match r {
+                                DigestResult::Finished => assert!(native_ops_of(&u.ops_tracker).is_empty(), "Finished with ops left"),
+                                DigestResult::NeedsMerge(c) => {
+                                    merges += 1;
+                                    assert!(Some(c) == cutoff, "NeedsMerge carries a key that is not the cutoff");
+                                    assert!(native_ops_of(&u.ops_tracker).iter().all(|o| matches!(o, BranchOp::Insert(..))), "NeedsMerge left a base-relative op for a base that is about to change");
+                                }
+                            }
+                            for (i, (sep, entries, _)) in rec.nodes.iter().enumerate() {
+                                assert!(!entries.is_empty(), "an empty branch node was handed out");
+                                assert!(entries.windows(2).all(|w| w[0].0 < w[1].0), "node {}: separators do not ascend", i);
+                                assert!(*sep == entries[0].0, "node {}: the separator passed with the node is not its first key", i);
+                            }
+                            if rec.nodes.len() > 1 { multi += 1; }
+                            cases += 1;
+                        }
+                    }
+                }
+            }
+        }
+    }
+    assert!(cases == 4 * 120 && multi > 50 && merges > 10, "{} cases, {} with a split, {} merges", cases, multi, merges);
+}
+
+/// Bounded native enumeration (not a proof) of a branch node split between key groups: composite keys
+/// (8-byte group id, 1-byte partition, 4..=14 zero bytes, 2-byte row), a base node that starts with the
+/// all-zero separator (stored prefix: 0 bits) followed by five separators of group 0x11 and 3, 4 or 6
+/// partitions of group 0xEE with 10, 17 or 25 separators each; 40, 80 or 120 separators appended to the
+/// last partition.  Base nodes that would not fit a page are skipped.  The node is split and the
+/// right half stores a prefix of 64+ bits, so the separators it keeps from the base node lose that
+/// many leading bits (BranchNodeBuilder::push_chunk with a longer prefix - defect 12 lost the tail
+/// bits of some of them).  The entries handed out are exactly the reference map's.
+#[cfg(test)]
+#[test]
+fn native_enum_branch_split_between_key_groups() {
+    use crate::beatree::ops::update::branch_ops::verif_kani::{native_expand, native_ops_of};
+    use crate::beatree::ops::bit_ops::{separate, separator_len};
+    let mut runs = 0;
+    let mut splits = 0;
+    for kz in 4usize..=14 {
+        for per_x in [10u16, 17, 25] {
+            for nx in [3u8, 4, 6] {
+                for nins in [40u16, 80, 120] {
+                    let mk = |p: u8, x: u8, i: u16| { let mut k = [0u8; 32]; for b in k.iter_mut().take(8) { *b = p; } k[8] = x; k[9 + kz..11 + kz].copy_from_slice(&i.to_be_bytes()); k };
+                    let mut keys: Vec<Key> = vec![[0u8; 32]];
+                    let mut prev = mk(0x11, 0, 0);
+                    for i in 1..6u16 { let nk = mk(0x11, 1, i * 3); keys.push(separate(&prev, &nk)); prev = mk(0x11, 1, i * 3 + 2); }
+                    for x in 1..=nx { for i in 0..per_x { let nk = mk(0xEE, x * 16, i * 3); keys.push(separate(&prev, &nk)); prev = mk(0xEE, x * 16, i * 3 + 2); } }
+                    let mut g = BranchGauge::default();
+                    for k in &keys { g.ingest_key(*k, separator_len(k)); }
+                    if g.body_size() > BRANCH_NODE_BODY_SIZE { continue; }
+                    let base = native_branch_from(&keys, keys.len());
+                    let vb = native_branch_from(&keys, keys.len());
+                    let mut u = BranchUpdater::new(PagePool::new(), Some(base), None);
+                    let mut model: std::collections::BTreeMap<Key, u32> = keys.iter().enumerate().map(|(i, k)| (*k, 1000 + i as u32)).collect();
+                    for j in 0..nins {
+                        let nk = mk(0xEE, nx * 16, 5000 + j * 3);
+                        let k = separate(&prev, &nk);
+                        prev = mk(0xEE, nx * 16, 5000 + j * 3 + 2);
+                        u.ingest(k, Some(PageNumber(9000 + j as u32)));
+                        model.insert(k, 9000 + j as u32);
+                    }
+                    let mut rec = NativeBranchRecorder { nodes: Vec::new() };
+                    let _ = u.digest(&mut rec).expect("the recorder never fails");
+                    let mut got: Vec<(Key, u32)> = rec.nodes.iter().flat_map(|n| n.1.iter().cloned()).collect();
+                    got.extend(native_expand(&vb, native_ops_of(&u.ops_tracker)));
+                    let want: Vec<(Key, u32)> = model.into_iter().collect();
+                    if let Some(pos) = got.iter().zip(want.iter()).position(|(a, b)| a != b) {
+                        panic!("split between key groups ({} zero bytes, {} x {} separators, {} appended; nodes of {:?} entries): entry {} reads back {:02x?} -> {}, the reference map has {:02x?} -> {}",
+                            kz, nx, per_x, nins, rec.nodes.iter().map(|n| n.1.len()).collect::<Vec<_>>(), pos, &got[pos].0[..12 + kz], got[pos].1, &want[pos].0[..12 + kz], want[pos].1);
+                    }
+                    assert!(got.len() == want.len(), "entries lost or duplicated");
+                    if rec.nodes.len() > 1 { splits += 1; }
+                    runs += 1;
+                }
+            }
+        }
+    }
+    assert!(runs > 150 && splits > 100, "{} runs, {} with a split", runs, splits);
+}
